@@ -144,7 +144,6 @@ def classify(rec, cobs, info, cfg):
                     break
         if e[1] >= 0:
             seen += 1
-    seg = [e for e in seg if not (e[1] >= 0 and sreal[:k] and False)]
     fails = [e for e in seg if e[1] < 0]
     nxt = sreal[k] if k < len(sreal) else None
     crashed = isinstance(cout, str) and (cout.startswith("CRASH") or cout == "TIMEOUT")
@@ -216,6 +215,7 @@ def run(tier, seed, only=None):
     workers = int(os.environ.get("VERIF_TLC_WORKERS", "0")) or 8
     jobs = int(os.environ.get("VERIF_JOBS", "0")) or 8
     cov = {"tlc": []}
+    timing = {}
 
     # ---- 1. gen phase: programs are TLC states
     selected, gen_cov, n_enum = [], collections.Counter(), 0
@@ -260,6 +260,7 @@ def run(tier, seed, only=None):
     else:
         selected = [("replay", p) for p in only]
 
+    timing["gen"] = time.time() - t0
     # ---- 2. render + build
     progs = {}          # pid -> info
     for pid, (fam, p) in enumerate(selected, 1):
@@ -302,49 +303,47 @@ def run(tier, seed, only=None):
         res = core.build_many(specs, workdir=wd, jobs=jobs)
         return {b.name: b for b in res}
 
-    builds = build_round(mods, "a")
-    # lenient-mode compile errors: attribute to functions, report, rebuild without them
-    rejected = {}        # pid -> [(msg, line offset)]
-    for mi, mod in mods.items():
-        for cname, _ in CONFIGS:
-            b = builds["c21a_m%d_%s" % (mi, cname)]
-            if b.ok:
-                continue
-            if b.stage != "cython":
-                core.die("build of %s failed at stage %s: %s" % (b.name, b.stage, (b.errors or "")[-3000:]))
-            errs = err_lines(b.errors or "", b.name)
-            if not errs:
-                core.die("build of %s failed without positions: %s" % (b.name, (b.errors or "")[-3000:]))
-            for line, col, msg in errs:
-                fn = func_of_line(mod, line)
-                rejected.setdefault(int(fn[1:]), set()).add((cname, msg, line - mod["first"][fn]))
-    n_rebuilt = 0
-    if rejected:
-        for mi, mod in list(mods.items()):
-            bad = [p for p in mod["members"] if p in rejected]
-            if bad:
-                keep = [p for p in mod["members"] if p not in rejected]
-                text, first, rend = make_module(mi, keep)
-                mods[mi] = {"members": keep, "text": text, "first": first, "rend": rend, "rebuilt": True}
-        re_mods = {mi: mod for mi, mod in mods.items() if mod.get("rebuilt")}
-        n_rebuilt = len(re_mods)
-        b2 = build_round(re_mods, "b")
-        for mi in re_mods:
+    builds = {}
+    rejected = {}        # pid -> {(config, msg, line offset)}: lenient-mode compile errors, attributed to functions
+    todo, n_rebuilt, rnd = dict(mods), 0, 0
+    while todo:
+        tag = "r%d" % rnd
+        bs = build_round(todo, tag)
+        for mi in todo:
             for suffix in [c for c, _ in CONFIGS] + ["dflt"]:
-                builds["c21a_m%d_%s" % (mi, suffix)] = b2["c21b_m%d_%s" % (mi, suffix)]
-        for mi, mod in re_mods.items():
+                builds["c21a_m%d_%s" % (mi, suffix)] = bs["c21%s_m%d_%s" % (tag, mi, suffix)]
+        nxt = {}
+        for mi, mod in todo.items():
+            bad = set()
             for cname, _ in CONFIGS:
                 b = builds["c21a_m%d_%s" % (mi, cname)]
-                if not b.ok:
-                    core.die("rebuild of %s failed: %s" % (b.name, (b.errors or "")[-3000:]))
+                if b.ok:
+                    continue
+                if b.stage != "cython":
+                    core.die("build of %s failed at stage %s: %s" % (b.name, b.stage, (b.errors or "")[-3000:]))
+                errs = err_lines(b.errors or "", b.name)
+                if not errs:
+                    core.die("build of %s failed without positions: %s" % (b.name, (b.errors or "")[-3000:]))
+                for line, col, msg in errs:
+                    fn = func_of_line(mod, line)
+                    rejected.setdefault(int(fn[1:]), set()).add((cname, msg, line - mod["first"][fn]))
+                    bad.add(int(fn[1:]))
+            if bad:
+                keep = [p for p in mod["members"] if p not in bad]
+                text, first, rend = make_module(mi, keep)
+                mods[mi] = nxt[mi] = {"members": keep, "text": text, "first": first, "rend": rend}
+        todo = nxt
+        n_rebuilt += len(nxt)
+        rnd += 1
+        if rnd > 8:
+            core.die("lenient-mode compile errors do not converge")
+    timing["build"] = time.time() - t0
     for pid, errs in sorted(rejected.items()):
         info = progs[pid]
         for cname, msg, off in sorted(errs):
             m = re.search(r"(undeclared name not builtin|referenced before assignment)", msg)
             vname = msg.rsplit(":", 1)[-1].strip() if "undeclared" in msg else (re.search(r"'(\w+)'", msg) or [None, "?"])[1]
             var = {v: k for k, v in ld.VNAMES.items()}.get(vname, 0)
-            live_binders = set()
-            # is the name bound by any statement that the spec can reach?  (decided later from the run phase)
             info.setdefault("lenient_errors", []).append({"config": cname, "msg": msg, "line_offset": off, "var": var,
                                                           "msg_class": m.group(1) if m else "other"})
 
@@ -407,6 +406,7 @@ def run(tier, seed, only=None):
     if not r.ok:
         sys.stderr.write(r.out[-5000:])
         core.die("TLC (run phase) failed: %s" % (r.violation or r.rc))
+    timing["run_tlc"] = time.time() - t0
     states += r.distinct
     transitions += r.generated
     run_cov = {a: r.coverage.get(a, (0, 0))[1] for a in RUN_ACTIONS}
@@ -489,9 +489,6 @@ def run(tier, seed, only=None):
     # lenient-mode rejections: the property says definitely-unbound names become run-time errors there
     for pid, info in progs.items():
         for e in info.get("lenient_errors", []):
-            reach_bind = False     # is the name bound on SOME explored path?  (then the rejection is not about dead code only)
-            for rec in paths[pid]:
-                pass
             d = {"config": e["config"], "ev": "compile", "spec": "accepted_by_cpython", "msg_class": e["msg_class"],
                  "binders": "+".join(sorted(ld.binders(info["prog"], e["var"]))) if e["var"] else "none",
                  "binder_only_in_dead_code": bool(e["var"]) and only_dead_binders(info, e["var"], paths[pid])}
@@ -518,6 +515,7 @@ def run(tier, seed, only=None):
                               "msg_class": "referenced before assignment" if "referenced before" in msg else "other"},
                              "default_mode_rejects", {"source": "\n".join(r_.lines), "error": msg, "line_offset": off})
 
+    timing["replay"] = time.time() - t0
     # ---- 6. binding demonstration: corrupted expectations must be rejected by the comparison
     demo = {"corrupted": 0, "rejected": 0}
     for (pid, i), o in list(zip(pkeys, pobs))[:400]:
@@ -566,7 +564,7 @@ def run(tier, seed, only=None):
                       unsound_is_null_uses=sum(1 for k in fv_events if k[2] == "isn")),
         "default_mode": {"programs_rejected": len(dflt_rejected), "rejections_for_definitely_unbound_use": n_dflt_ok},
         "disagreement_classes": dict(cls_count),
-        "binding_selftest": demo,
+        "binding_selftest": demo, "phase_end_times_s": {k: round(v, 1) for k, v in timing.items()},
         "samples": samples,
     })
     rc = rep.finish()
